@@ -477,6 +477,7 @@ CONSTANTS
 INVARIANT AlgorithmMatchesDenotation
 INVARIANT SwapSymmetry
 INVARIANT HelperLaws
+INVARIANT QueryLaws
 CONSTRAINT Emit
 CHECK_DEADLOCK FALSE
 """
@@ -489,7 +490,8 @@ def check_pathrel(tier, seed, work):
     h, bindir = vf.prepare(work, ["us"])
     fams = [("pairs2", dict(k1=q(["k1", "k2"]), k2=q(["k1"]), maxlen=2, mode="pairs")),
             ("keys3", dict(k1=q(["k1", "k2", "k3"]), k2=q(["k1"]), maxlen=1, mode="pairs")),
-            ("origins", dict(k1=q(["k1", "k2"]), k2=q(["k1"]), maxlen=1, mode="origins"))]
+            ("origins", dict(k1=q(["k1", "k2"]), k2=q(["k1"]), maxlen=1, mode="origins")),
+            ("query", dict(k1=q(["k1", "k2"]), k2=q(["k1"]), maxlen=2, mode="query"))]
     if tier == "thorough":
         fams.append(("pairs2full", dict(k1=q(["k1", "k2"]), k2=q(["k1", "k2"]), maxlen=2, mode="pairs")))
         fams.append(("len3", dict(k1=q(["k1"]), k2=q(["k1"]), maxlen=3, mode="pairs")))
@@ -513,7 +515,9 @@ def check_pathrel(tier, seed, work):
                "and short paths under all origin pairs; thorough adds two key names on both elements (1.1M pairs) and length 3. TLC "
                "checks the ComparePaths-shaped algorithm against the set-of-concrete-paths definition on every pair; the harness "
                "checks ComparePaths (8 times per pair: map order), swap symmetry, PathMatchesQuery (concrete data paths), "
-               "PathMatchesPathElemPrefix, TrimGNMIPathElemPrefix, FindPathElemPrefix, PathMatchesPrefix and JoinPaths.")
+               "PathMatchesPathElemPrefix, TrimGNMIPathElemPrefix, FindPathElemPrefix, PathMatchesPrefix and JoinPaths. The query family runs "
+               "every concrete data path against every query whose element names may be the wildcard '*' as well (25 625 pairs; "
+               "QueryLaws: such a query denotes the union of its named instantiations).")
     return cov, tot["violations"]
 
 
